@@ -35,6 +35,11 @@ func genBehav(g *simrt.Tape, closes bool) ReqBehav {
 			b.CloseBefore = true
 		case 3:
 			b.ResetAfter = true
+		case 4:
+			b.Partial = 1 + g.Draw(7)
+		case 5:
+			b.Partial = 1 + g.Draw(7)
+			b.ResetAfter = true
 		}
 	}
 	return b
